@@ -26,7 +26,7 @@ static int handshake(sslSessionId_t *sid, int mode, const char *what,
     sslSessOpts_t co, so;
     epState_t cs, ss;
     psCipher16_t suites[2] = { SUITE, TLS_RSA_WITH_AES_256_CBC_SHA256 };
-    int rc, n = 1;
+    int rc, n = (sid != NULL && mode != 0) ? 2 : 1;
 
     memset(&cs, 0, sizeof(cs)); memset(&ss, 0, sizeof(ss));
     memset(&co, 0, sizeof(co)); memset(&so, 0, sizeof(so));
@@ -72,7 +72,7 @@ static int handshake(sslSessionId_t *sid, int mode, const char *what,
 
 int main(void)
 {
-    sslSessionId_t *sid = NULL;
+    sslSessionId_t *sid = NULL, *sid2 = NULL;
     int resumed, suite, done, bad = 0;
 
     if (matrixSslOpen() < 0) return 2;
@@ -80,9 +80,19 @@ int main(void)
     g_ck = loadClientKeys();
     if (!g_sk || !g_ck) return 2;
     if (matrixSslNewSessionId(&sid, NULL) < 0) return 2;
+    if (matrixSslNewSessionId(&sid2, NULL) < 0) return 2;
 
     done = handshake(sid, 0, "1. full handshake, suite enabled:", &resumed, &suite);
     if (!done || suite != SUITE) { printf("setup failed\n"); return 2; }
+    done = handshake(sid2, 0, "1b. second full handshake (2nd cached session):",
+            &resumed, &suite);
+    if (!done || suite != SUITE) { printf("setup failed\n"); return 2; }
+    done = handshake(sid2, 0, "1c. sanity: resumption while suite is enabled:",
+            &resumed, &suite);
+    if (!done || !resumed || suite != SUITE)
+    {
+        printf("honest resumption failed\n"); return 2;
+    }
 
     /* Control: with the suite disabled for the session a client that has no
        cached session and offers only this suite is refused. */
@@ -99,11 +109,15 @@ int main(void)
                "resumption\n", SUITE);
         bad = 1;
     }
+    else if (!done)
+    {
+        printf("fallback to a full handshake failed\n"); return 2;
+    }
 
     done = handshake(NULL, 2, "4. control: no session, suite disabled (glob):",
             &resumed, &suite);
     if (done) { printf("control unexpectedly completed\n"); return 2; }
-    done = handshake(sid, 2, "5. cached session id, suite disabled (glob):",
+    done = handshake(sid2, 2, "5. cached session id, suite disabled (glob):",
             &resumed, &suite);
     if (done && suite == SUITE)
     {
@@ -112,6 +126,11 @@ int main(void)
                SUITE);
         bad = 1;
     }
-    if (!bad) printf("no violation\n");
+    else if (!done)
+    {
+        printf("fallback to a full handshake failed\n"); return 2;
+    }
+    if (!bad) printf("OK: the disabled suite was not resumed; the handshakes "
+                     "fell back to a full handshake on an enabled suite\n");
     return bad;
 }
